@@ -202,10 +202,11 @@ def run_unit(unit, tier="quick", want_canary=True):
     tmpl = os.path.join(VERIF, "units", unit, "unit.rs.tmpl")
     os.makedirs(BUILD, exist_ok=True)
     quarantine = {}
-    for attempt in range(4):
+    inline = {}      # R15: function -> names of same-file helpers / constants to inline into it
+    for attempt in range(6):
         try:
-            text, fns, meta = splice(tmpl, REPO, canary=False, quarantine=quarantine)
-            ctext, cfns, _ = splice(tmpl, REPO, canary=True, quarantine=quarantine)
+            text, fns, meta = splice(tmpl, REPO, canary=False, quarantine=quarantine, inline=inline)
+            ctext, cfns, _ = splice(tmpl, REPO, canary=True, quarantine=quarantine, inline=inline)
         except (LostAnchor, LexError, TemplateError) as e:
             res.status = "undecided"
             res.reason = f"lost anchor: {e}"
@@ -241,11 +242,18 @@ def run_unit(unit, tier="quick", want_canary=True):
         ill = []
         classify(diags, fns, text.split("\n"), ill)
         newq = {}
+        newinl = False
         for (line, msg, sl) in ill:
             for f in fns:
                 if f.kind == "body" and f.lost is None and f.body_lines[0] and any(l and f.body_lines[0] <= l <= f.body_lines[1] for l in [line] + sl):
-                    newq.setdefault(f.name, f"real body ill-typed against the unit's stand-ins: {msg}")
-        if not newq or attempt == 3:
+                    # R15 first: an unknown helper / constant that the same source file defines is inlined (once)
+                    mm = re.search(r"(?:no method named|no (?:function or )?associated (?:function or constant|item) named|cannot find function|cannot find value) `(\w+)`", msg)
+                    if mm and mm.group(1) not in inline.get(f.name, set()) and not mm.group(1).startswith("__"):
+                        inline.setdefault(f.name, set()).add(mm.group(1))
+                        newinl = True
+                    else:
+                        newq.setdefault(f.name, f"real body ill-typed against the unit's stand-ins: {msg}")
+        if (not newq and not newinl) or attempt == 5:
             break
         quarantine.update(newq)
     gen_lines = text.split("\n")
